@@ -204,6 +204,17 @@ Fixpoint keys_at (ks : list pv) (fs : list field) (ps : list nat) : Prop :=
   | _, _, _ => False
   end.
 
+Lemma domval_dom_eq : forall l f, pyeq (PDomTuple l) (domval f) = true -> pyeq_list l (fdom f) = true.
+Proof.
+  intros l f. unfold domval. destruct (fkind f).
+  - rewrite pyeq_dd. auto.
+  - rewrite pyeq_dt. auto.
+  - simpl. discriminate.
+Qed.
+
+Lemma nonseq_neq_domval : forall k f, is_seqval k = false -> pyeq k (domval f) = false.
+Proof. intros k f H. unfold domval. destruct (fkind f); destruct k; simpl in *; auto; discriminate. Qed.
+
 Lemma keys_at_length : forall ks fs ps, keys_at ks fs ps ->
   length ks = length ps /\ length ps <= length fs.
 Proof.
@@ -477,7 +488,7 @@ Qed.
 Theorem outer_list_subtable_thm : forall t ks js, wf t -> ks <> [] -> forallb plainkey ks = true ->
   index_into_domain ks (dom0 (tix t)) = Ok js -> NoDup js ->
   exists t', (getitem t (PList ks) = Ok (GTable t') \/ (getitem t (PList ks) = Ok GSelf /\ t' = t)) /\
-     tindex_eqb (tix t') (match tix t with f :: fs => mkField (fname f) (restrict (fdom f) js) :: fs | [] => [] end) = true /\
+     tindex_eqb (tix t') (match tix t with f :: fs => mkField (fname f) (restrict (fdom f) js) DKDom :: fs | [] => [] end) = true /\
      forall j rest, j < length js -> tcell t' (j :: rest) = tcell t (nth j js 0 :: rest).
 Proof.
   intros t ks js Hwf Hne Hpl Hidx Hnd.
@@ -490,23 +501,20 @@ Proof.
   inversion W as [|? ? [D Hh] W']; subst.
   assert (Hrefl : forall ix, wf_index ix -> tindex_eqb ix ix = true).
   { induction ix as [|g ix IHx]; simpl; auto. intros Wg. inversion Wg; subst.
-    unfold field_eqb. rewrite pyeq_refl, IHx by assumption.
-    rewrite pyeq_list_refl. reflexivity. apply Forall_forall. intros; apply pyeq_refl. }
+    unfold field_eqb. rewrite !pyeq_refl, IHx by assumption. reflexivity. }
   unfold getitem, getitem_raw. rewrite Hai, Hx.
-  assert (Hup : updated_index (f :: fs) (AIList js) = Some (mkField (fname f) (restrict (fdom f) js) :: fs)).
+  assert (Hup : updated_index (f :: fs) (AIList js) = Some (mkField (fname f) (restrict (fdom f) js) DKDom :: fs)).
   { destruct js; [congruence | reflexivity]. }
   rewrite Hup.
-  destruct (tindex_eqb (mkField (fname f) (restrict (fdom f) js) :: fs) (f :: fs)) eqn:E.
+  destruct (tindex_eqb (mkField (fname f) (restrict (fdom f) js) DKDom :: fs) (f :: fs)) eqn:E.
   - (* the list is the whole domain in order: self *)
     exists t. split; [right; auto|]. rewrite Hx. split.
     + simpl. simpl in E. apply andb_true_iff in E. destruct E as [E1 E2].
-      unfold field_eqb in *. simpl in *. apply andb_true_iff in E1. destruct E1 as [E1a E1b].
-      rewrite pyeq_refl. simpl.
-      assert (pyeq_list (fdom f) (restrict (fdom f) js) = true).
-      { rewrite pyeq_list_sym. assumption. apply Forall_forall. intros; apply pyeq_sym. }
-      rewrite H. simpl. apply Hrefl. assumption.
+      unfold field_eqb in *. apply andb_true_iff in E1. destruct E1 as [E1a E1b].
+      rewrite (pyeq_sym (fname f)), E1a, (pyeq_sym (domval f)), E1b. simpl. apply Hrefl. assumption.
     + intros j rest Hj. simpl in E. apply andb_true_iff in E. destruct E as [E1 _].
-      unfold field_eqb in E1. simpl in E1. apply andb_true_iff in E1. destruct E1 as [_ E1].
+      unfold field_eqb in E1. apply andb_true_iff in E1. destruct E1 as [_ E1].
+      apply domval_dom_eq in E1. simpl in E1.
       apply pyeq_list_nth in E1. destruct E1 as [L1 N1]. unfold restrict in *. rewrite map_length in *.
       specialize (N1 j Hj). rewrite (nth_indep _ PNone (nth 0 (fdom f) PNone)) in N1 by (rewrite map_length; assumption).
       rewrite (map_nth (fun i => nth i (fdom f) PNone)) in N1.
@@ -515,15 +523,13 @@ Proof.
       { apply (dupfree_inj (fdom f)); [assumption | apply F; apply nth_In; assumption | lia | exact N1]. }
       rewrite H. reflexivity.
   - unfold np_get, entries_of. simpl existsb. unfold adv_adjacent. simpl.
-    assert (Hv : validate (length js :: shape_of fs) (mkField (fname f) (restrict (fdom f) js) :: fs) = true).
+    assert (Hv : validate (length js :: shape_of fs) (mkField (fname f) (restrict (fdom f) js) DKDom :: fs) = true).
     { unfold validate. simpl. unfold restrict at 1. rewrite map_length, Nat.eqb_refl, natlist_eqb_refl. simpl.
       rewrite restrict_dupfree by assumption. simpl.
       apply forallb_forall. intros g Hg. unfold wf_index in W'. rewrite Forall_forall in W'.
       destruct (W' g Hg). assumption. }
     rewrite Hv. eexists. split; [left; reflexivity|]. simpl. split.
-    + unfold field_eqb. simpl. rewrite pyeq_refl. simpl.
-      rewrite pyeq_list_refl by (apply Forall_forall; intros; apply pyeq_refl). simpl.
-      apply Hrefl. assumption.
+    + unfold field_eqb. rewrite !pyeq_refl. simpl. apply Hrefl. assumption.
     + intros j rest Hj. reflexivity.
 Qed.
 
@@ -567,8 +573,8 @@ Lemma iif_slices : forall m fs cs, m <= length fs -> Forall (fun f => plain_dom 
 Proof.
   induction m; intros fs cs Hm F; simpl; [reflexivity|].
   destruct fs as [|f fs]; [simpl in Hm; lia|]. inversion F; subst.
-  rewrite index_of_pin, (plain_index_of_special _ (PSlice true) H1) by reflexivity. simpl.
-  rewrite IHm; auto. simpl in Hm; lia.
+  rewrite index_of_pin, (plain_index_of_special _ (PSlice true) H1) by reflexivity.
+  unfold domval. destruct (fkind f); simpl; (rewrite IHm; auto; simpl in Hm; lia).
 Qed.
 
 (* t[:, :, ...] with at most one full slice per field is the table itself *)
@@ -662,14 +668,13 @@ Qed.
 Lemma iif_foreign : forall ks fs ps k rest cs, keys_at ks fs ps ->
   length ps < length fs ->
   is_seqval k = false -> plainkey k = true ->
-  index_of k (fdom (nth (length ps) fs (mkField PNone []))) = None ->
+  index_of k (fdom (nth (length ps) fs (mkField PNone [] DKDom))) = None ->
   iif (ks ++ k :: rest) fs cs = Err EIndex.
 Proof.
   induction ks as [|k0 ks IH]; intros fs ps k rest cs Hk Hlen S P I.
   - destruct ps; [|simpl in Hk; contradiction]. destruct fs as [|f fs]; [simpl in Hlen; lia|].
     simpl in *. rewrite index_of_pin, I.
-    assert (pyeq k (PDomTuple (fdom f)) = false) by (destruct k; simpl in *; auto; discriminate).
-    rewrite H. destruct k; simpl in *; auto; discriminate.
+    rewrite (nonseq_neq_domval k f S). destruct k; simpl in *; auto; discriminate.
   - destruct fs as [|f fs], ps as [|p ps]; simpl in Hk; try contradiction.
     destruct Hk as [K1 K2]. simpl. rewrite (dom_index_pin _ _ _ K1), K1.
     rewrite (IH fs ps k rest cs); auto. simpl in Hlen. lia.
@@ -679,7 +684,7 @@ Theorem foreign_tuple_raises_thm : forall t ks ps k rest, wf t ->
   forallb plainkey (ks ++ k :: rest) = true -> keys_at ks (tix t) ps ->
   length (ks ++ k :: rest) <= length (tix t) ->
   is_seqval k = false ->
-  index_of k (fdom (nth (length ps) (tix t) (mkField PNone []))) = None ->
+  index_of k (fdom (nth (length ps) (tix t) (mkField PNone [] DKDom))) = None ->
   not_outer_element t (PTuple (ks ++ k :: rest)) ->
   getitem_raw t (PTuple (ks ++ k :: rest)) = Err EIndex /\
   getitem t (PTuple (ks ++ k :: rest)) = Err (if cls_state (tcls t) then EStateAction else EIndex) /\
@@ -763,7 +768,7 @@ Proof.
 Qed.
 (* the tuple (1, 7) is BOTH a full key (cell 0) and the outer element at position 1: the element wins *)
 Example ex_outer_wins : exists t', getitem (ex_t CTable) (PTuple [PInt 1; PInt 7]) = Ok (GTable t') /\
-  tix t' = [mkField (PInt 1) [PInt 7; PFloat 1 2]] /\ tcell t' [0] = 2%Z.
+  tix t' = [mkField (PInt 1) [PInt 7; PFloat 1 2] DKDom] /\ tcell t' [0] = 2%Z.
 Proof.
   pose proof (outer_element_wins_thm (ex_t CTable) (PTuple [PInt 1; PInt 7]) 1 (ex_wf _) eq_refl) as S.
   unfold selects in S. simpl in S. destruct S as [t' [G [_ [X C]]]]. exists t'. repeat split; auto.
@@ -792,7 +797,7 @@ Proof.
   all: try (apply (P 1); simpl; lia); try (apply F; reflexivity).
 Qed.
 Example ex_prob_row_tuple : is_row_dist (ex_t CProb) (getitem (ex_t CProb) (PTuple [PBool true])) [0]
-                                        (mkField (PInt 1) [PInt 7; PFloat 1 2]).
+                                        (mkField (PInt 1) [PInt 7; PFloat 1 2] DKDom).
 Proof.
   apply prob_row_dist_thm; auto using ex_wf; try discriminate; simpl; auto.
 Qed.
@@ -808,3 +813,23 @@ Proof.
   - apply (foreign_tuple_raises_thm (ex_t CTable) [PNone] [2] (PInt 9) []); auto using ex_wf;
       try (simpl; tauto); intros i; vm_compute; discriminate.
 Qed.
+
+(* the same theorems on a table whose domains are held in a plain list and a plain tuple
+   (TableIndex(fields=[Field("..", [...]), Field("..", (...))])) *)
+Definition ex_plain : table :=
+  mkTable CTable [mkField (PInt 0) [PInt 1; PNone] DKList; mkField (PInt 1) [PInt 7; PFloat 1 2] DKTuple]
+          (fun ixs => Z.of_nat (ravel [2; 2] ixs 0)).
+Lemma ex_plain_wf : wf ex_plain.
+Proof. split; [discriminate|]. repeat constructor. Qed.
+Example ex_full_plain : getitem ex_plain (PTuple [PNone; PFloat 1 2]) = Ok (GScalar 3%Z).
+Proof.
+  apply (full_key_cell_thm ex_plain [PNone; PFloat 1 2] [1; 1]); auto using ex_plain_wf.
+  - simpl. auto.
+  - intros i. vm_compute. discriminate.
+Qed.
+(* a plain tuple equal to a LIST domain is not "the whole domain" for msdm (tuple == list is False):
+   it is resolved as a subset given as a tuple, whose field is then dropped -> ValueError *)
+Example ex_plain_whole_domain_tuple :
+  getitem ex_plain (PTuple [PTuple [PInt 1; PNone]; PInt 7]) = Err EValue /\
+  exists t', getitem ex_plain (PTuple [PList [PInt 1; PNone]; PInt 7]) = Ok (GTable t').
+Proof. split; [reflexivity | eexists; reflexivity]. Qed.
